@@ -61,6 +61,10 @@ def docOf (m : AMap) : Doc :=
 
 def flush (s : St) : St := if s.hasCache then { s with cache := some (docOf s.m) } else s
 
+/-- the poller's exit path when the store is closed (`case <-ctx.Done()` in run): take the
+lock, write the cache, return - unconditionally -/
+def shutdown (s : St) : St := flush s
+
 /-! ### construction -/
 
 /-- "stub in" declared names missing from the cache, mark the others declared;
